@@ -1,6 +1,6 @@
 -------------------------------- MODULE Errors --------------------------------
 (* C14.  Chord errors across the RPC boundary (spec/chord/errors.go, spec/rpc/error.go, chord/server_rpc.go,
-   chord/remote.go).  A case is (method, origin error, plain / %w-wrapped).  The code path is transcribed
+   chord/remote.go).  A case is (method, origin error, plain / wrapped in one of four shapes).  The code path is transcribed
    ("Impl": what the caller ends up holding), the property is the predicate Decl over an observation of the two
    sides.  Family "cases" enumerates the cases for the Go driver (drv/rpcerr: real twirp server/client);
    family "obs" reads the driver's observations back and judges each with Decl.  MC_Errors_design.cfg asks TLC
@@ -30,7 +30,12 @@ PlainMethods == {"Ping", "Notify", "FindSuccessor", "GetSuccessors", "RequestToJ
 BareMethods  == IF Repaired THEN {} ELSE {"GetPredecessor"}   \* (before the fix) returns err as is; the twirp server makes it an internal error
 Methods      == KVMethods \cup PlainMethods \cup {"GetPredecessor"}
 
-Cases == [m : Methods, err : Origins, wrap : BOOLEAN]
+(* how the origin error is wrapped on its way to the handler: not at all; with one %w; as one of several errors joined with errors.Join;
+   as the second of two %w in one fmt.Errorf; and (deadline only) inside an error type that declares itself to be the deadline through an
+   Is method, as the timeout errors of package net do.  errors.Is / errors.As see through all of them, and the code uses only those. *)
+Shapes(e) == {"single", "join", "two"} \cup (IF e = "deadline" THEN {"is"} ELSE {})
+Cases == {[m |-> m, err |-> e, wrap |-> FALSE, shape |-> "plain"] : m \in Methods, e \in Origins}
+         \cup UNION {{[m |-> m, err |-> e, wrap |-> TRUE, shape |-> sh] : sh \in Shapes(e)} : m \in Methods, e \in Origins}
 
 -------------------------------------------------------------------------------
 (* transcription *)
